@@ -85,3 +85,80 @@ def _error_format(c):
     root = z3.StringVal("_")
     c.ensures("message", lambda r, post: message_ok(ct, r, e, root, c.pre_ph))
     c.ensures("path-frame", lambda r, post: V.path_frame(post))
+
+
+# ----------------------------------------------------------------------------- validate / validate_or_fail / format_result
+from pyvc.loops import joined  # noqa: E402
+
+
+@contract(VINIT, "validate", props=("C02", "C03", "C08", "C07"), group="validator")
+def _validate(c):
+    ct = c.ct
+    Sx = c.sym("schema")
+    v = c.sym("value")
+    c.kwargs()
+    c.requires(S.is_schema(ct, Sx), "is-schema")
+    c.requires(S.wf(Sx), "wf")
+    c.paths()
+    c.raises(props=("C08",))
+    c.returns("ValidationResult")
+    empty = z3.Empty(M.SeqObj)
+    c.ensures("result", lambda r, post: z3.And(*S.is_result(ct, r)), ("C02",))
+    c.ensures("verdict", lambda r, post: S.no_errors(r) == S.conforms(Sx, v), ("C02",))
+    c.ensures("located", lambda r, post: z3.And(
+        V.errs_alloc(S.errors_of(r), post.alloc),
+        V.errs_located(S.errors_of(r), lambda e: V.located_u(e, Sx, v, empty, V.epath(post.ph, e)))), ("C03",))
+    c.ensures("path-frame", lambda r, post: V.path_frame(post), ("C03", "C07"))
+
+
+def lines_ok(msg: Any, sep: str) -> Any:
+    """msg is `sep` followed by the sep-join of a non-empty list of non-empty strings (one per error)"""
+    L = z3.Const("lines", Obj)
+    j = z3.Int("lj")
+    return z3.Exists([L], z3.And(
+        M.llen(L) >= 1,
+        msg == z3.Concat(z3.StringVal(sep), joined(z3.StringVal(sep), L)),
+        z3.ForAll([j], z3.Implies(z3.And(0 <= j, j < M.llen(L)),
+                                  z3.And(M.is_StrV(M.lat(L, j)), z3.Length(M.sval(M.lat(L, j))) > 0)),
+                  patterns=[M.lat(L, j)])),
+        patterns=[joined(z3.StringVal(sep), L)])
+
+
+@contract(VINIT, "validate_or_fail", props=("C08", "C02", "C07"), group="validator")
+def _validate_or_fail(c):
+    ct = c.ct
+    Sx = c.sym("schema")
+    v = c.sym("value")
+    c.kwargs()
+    c.requires(S.is_schema(ct, Sx), "is-schema")
+    c.requires(S.wf(Sx), "wf")
+    c.paths()
+    c.raises("ValidationException", props=("C08",))
+    c.raises_when("ValidationException", z3.Not(S.conforms(Sx, v)))
+    c.returns("bool")
+    c.ensures("returns-true", lambda r, post: r == M.mk_bool(True), ("C08",))
+    c.ensures_exc("ValidationException", "one-line-per-error",
+                  lambda e, post: z3.And(M.is_StrV(M.lat(M.attr("args")(e), 0)),
+                                         lines_ok(M.sval(M.lat(M.attr("args")(e), 0)), "\n - ")), ("C08",))
+    c.ensures("path-frame", lambda r, post: V.path_frame(post), ("C07",))
+
+
+@contract(VINIT, "format_result", props=("C08", "C07"), group="validator")
+def _format_result(c):
+    ct = c.ct
+    r0 = c.sym("result", "ValidationResult")
+    c.sym("formatter", "Formatter")
+    c.requires(z3.And(*S.is_result(ct, r0)), "is-result")
+    c.requires(V.errs_alloc(S.errors_of(r0), c.pre_alloc), "errors-wf")
+    c.requires(z3.And(M.is_Ref(c.sym("formatter")), M.rcls(c.sym("formatter")) == ct.id("Formatter")), "formatter")
+    c.paths()
+    c.raises(props=("C08",))
+    c.returns("list")
+    j = z3.Int("fj")
+    c.ensures("lines", lambda r, post: z3.And(
+        M.is_Ref(r), (M.llen(r) == 0) == S.no_errors(r0),
+        z3.Implies(z3.Not(S.no_errors(r0)), M.llen(r) == 1 + M.llen(S.errors_of(r0))),
+        z3.ForAll([j], z3.Implies(z3.And(0 <= j, j < M.llen(r)),
+                                  z3.And(M.is_StrV(M.lat(r, j)), z3.Length(M.sval(M.lat(r, j))) > 0)),
+                  patterns=[M.lat(r, j)])), ("C08",))
+    c.ensures("path-frame", lambda r, post: V.path_frame(post), ("C07",))
